@@ -316,6 +316,14 @@ def run_roundtrip(case):
     if kind == "letter":
         got = alph.decode_multiple(np.array(idx, dtype=np.uint8), as_bytes=True)
         o.check_eq([bytes(x) for x in got], [c.encode("ascii") for c in want], "decode_multiple", "as_bytes=True")
+        # the single-symbol form takes the same keyword: the symbol comes back as str or as bytes
+        for c, sym in zip(idx, want):
+            one = alph.decode(c, as_bytes=True)
+            o.check(
+                one == sym or (isinstance(one, (bytes, np.bytes_)) and bytes(one) == sym.encode("ascii")),
+                "encode_decode_identity",
+                lambda: f"decode({c}, as_bytes=True) gave {one!r:.80} for symbol {sym!r}",
+            )
     return o
 
 
